@@ -323,11 +323,17 @@ func c04Edge(t *testing.T, rng *rand.Rand) (viols [][2]string, stats map[string]
 	var sb strings.Builder
 	synctest.Test(t, func(t *testing.T) {
 		B := []int{1, 2, 3, 4, 8, 16}[rng.Intn(6)]
+		// the two buffers are configured independently: half of the histories give the query
+		// buffer a size of its own
+		BQ := B
+		if rng.Intn(2) == 0 {
+			BQ = []int{1, 2, 3, 4, 8, 16, 32}[rng.Intn(7)]
+		}
 		net := simnet.New(1)
 		nd, err := cluster.Start(net, cluster.Opts{Name: "self", IP: "10.0.0.1", Profile: "passive", EventBuf: 1 << 15,
 			Mutate: func(c *serf.Config) {
 				c.BroadcastTimeout, c.LeavePropagateDelay = 0, 0
-				c.EventBuffer, c.QueryBuffer = B, B
+				c.EventBuffer, c.QueryBuffer = B, BQ
 			}})
 		if err != nil {
 			viols = append(viols, [2]string{"setup", err.Error()})
@@ -339,6 +345,10 @@ func c04Edge(t *testing.T, rng *rand.Rand) (viols [][2]string, stats map[string]
 		tr.poll(nd)
 		base := uint64(1 + rng.Intn(3*B+2))
 		offs := []int{0, 1, B - 1, B, B + 1, 2*B - 1, 2 * B, 2*B + 1, 3 * B}
+		if BQ != B {
+			stats["histories_with_differing_buffer_sizes"]++
+			offs = append(offs, BQ-1, BQ, BQ+1, 2*BQ, 2*BQ+1)
+		}
 		var pool []c04Msg
 		for i, n := 0, 4+rng.Intn(8); i < n; i++ {
 			lt := base + uint64(offs[rng.Intn(len(offs))])
@@ -351,7 +361,7 @@ func c04Edge(t *testing.T, rng *rand.Rand) (viols [][2]string, stats map[string]
 					Timeout: time.Second, Name: "q"}), fmt.Sprintf("query(%d,id%d)", lt, id), ""})
 			}
 		}
-		fmt.Fprintf(&sb, "B=%d ", B)
+		fmt.Fprintf(&sb, "EventBuffer=%d QueryBuffer=%d ", B, BQ)
 		enq := map[string]int{}
 		descOf := map[string]string{}
 		for _, m := range pool {
@@ -386,7 +396,7 @@ func c04Edge(t *testing.T, rng *rand.Rand) (viols [][2]string, stats map[string]
 				enq[k]++
 				stats["rebroadcasts"]++
 				if enq[k] > 1 {
-					viols = append(viols, [2]string{"rebroadcast-twice/window-edge", fmt.Sprintf("step %d: %s re-broadcast %d times (buffer size %d)", i, descOf[k], enq[k], B)})
+					viols = append(viols, [2]string{"rebroadcast-twice/window-edge", fmt.Sprintf("step %d: %s re-broadcast %d times (EventBuffer %d, QueryBuffer %d)", i, descOf[k], enq[k], B, BQ)})
 				}
 			}
 		}
